@@ -149,7 +149,9 @@ func c08Eval(c *c08case) string {
 }
 
 func c08Run(env *Env) *Result {
-	res := NewResult()
+	// (ii) first: clone == root after every event of multi-replica histories
+	// (the smaller part; part (i) below fills whatever budget is left)
+	res := RunH(c08HSpec, env)
 	al := c08Alphabet
 	maxPrefix := 1
 	if env.Tier == "thorough" {
@@ -224,11 +226,6 @@ outer:
 	} else if env.Shard == 0 {
 		res.Completed = append(res.Completed, fmt.Sprintf("c08/failing-updates/prefix<=%d/body<=2", maxPrefix))
 	}
-	// (ii) clone == root after every event of multi-replica histories
-	r2 := RunH(c08HSpec, env)
-	r2.Evaluations, res.Evaluations = 0, res.Evaluations+r2.Evaluations
-	r2.Nontrivial, res.Nontrivial = 0, res.Nontrivial+r2.Nontrivial
-	res.Merge(r2)
 	return res
 }
 
